@@ -29,6 +29,8 @@ type Msg struct {
 	Body    []byte   `json:"body"`
 	Files   []File   `json:"files,omitempty"`
 	P2POnly bool     `json:"p2p_only,omitempty"`
+	// Extra header fields as {name, value}; names must be in canonical MIME spelling (Xxx-Yyy).
+	Extra [][2]string `json:"extra,omitempty"`
 }
 
 // Bytes renders the message in the Winlink message structure: "Mid" first, the other header
@@ -62,6 +64,9 @@ func (m Msg) Bytes() []byte {
 	add("Type", "Private")
 	if m.P2POnly {
 		add("X-P2ponly", "true")
+	}
+	for _, e := range m.Extra {
+		add(e[0], e[1])
 	}
 	sort.SliceStable(h, func(i, j int) bool { return h[i].k < h[j].k })
 	var b bytes.Buffer
